@@ -756,3 +756,5 @@ func propC20() Prop[C20Case] {
 func TestC20(t *testing.T) { Run(t, propC20()) }
 
 func FuzzGenC20(f *testing.F) { RunFuzz(f, propC20()) }
+
+func TestRaceC20(t *testing.T) { RunConcurrent(t, propC20(), 4) }
